@@ -2,6 +2,7 @@ package main
 
 import (
 	"fmt"
+	"go/constant"
 	"go/token"
 	"regexp"
 	"sort"
@@ -34,7 +35,15 @@ func getterField(p *Prog, method string) string {
 				}
 				switch t := v.(type) {
 				case *ssa.Const:
-					return t.IsNil()
+					return t.IsNil() || t.Value == nil || (t.Value.Kind() == constant.String && constant.StringVal(t.Value) == "")
+				case *ssa.UnOp:
+					// a getter that returns the field's value rather than its address
+					if t.Op == token.MUL {
+						if fa, ok := t.X.(*ssa.FieldAddr); ok {
+							return walk(fa, d+1)
+						}
+					}
+					return false
 				case *ssa.Phi:
 					for _, e := range t.Edges {
 						if !walk(e, d+1) {
